@@ -198,9 +198,9 @@ namespace sim
          if( on_sub ) {
             ++f.sub_inputs;
          }
-         if( top != nullptr && has_pos && !on_sub && !top->sub && e.pos > top->furthest ) {
+         if( top != nullptr && has_pos && on_sub == top->sub && e.pos > top->furthest ) {
             for( auto it = st.rbegin(); it != st.rend(); ++it ) {
-               if( it->sub || it->furthest >= e.pos ) {
+               if( it->sub != on_sub || it->furthest >= e.pos ) {
                   break;
                }
                it->furthest = e.pos;
@@ -386,6 +386,9 @@ namespace sim
                      cx.viol( "C18.bytes", "check-bytes-early", i, short_name( fr.rule ) + " reported excess consumption after " + std::to_string( h[ fr.closing_idx ].pos - fr.pos ) + " bytes, limit " + std::to_string( fr.p0 ) );
                   }
                }
+               if( fr.cls == RC::MI_RAISE && e.kind == Ev::EXIT && !result && !fr.delegating ) {
+                  cx.viol( "C05.first", hn, i, short_name( fr.rule ) + " has a must_if message with raise_on_failure, yet it failed locally without raising" );
+               }
                if( e.kind == Ev::EXIT ) {
                   // ---------------- C02
                   if( !result && ( fr.flags & F_REQUIRED ) ) {
@@ -511,7 +514,22 @@ namespace sim
                         }
                      }
                      else {
-                        const bool known = ( x.cls == EXC_ABORT ) || ( x.cls == EXC_OVERFLOW && !cx.memory_set ) || ( x.cls == EXC_IO ) || ( x.cls == EXC_BAD_ALLOC ) || ( x.cls == EXC_SYSTEM && int( set ) >= 20 )
+                        // must_if raises custom messages itself (no raise hook): from the failure hook of a rule that
+                        // raises on failure, or from must< R > for a rule that only carries a message
+                        bool mi_ok = false;
+                        if( x.cls == EXC_PE_LIB && x.message.compare( 0, 4, "msg " ) == 0 ) {
+                           const std::string rn = rule_name( fr.rule );
+                           const std::string want = ( rn.find( "mi_raise_a" ) != std::string::npos ) ? "msg a" : ( ( rn.find( "mi_raise_d" ) != std::string::npos ) ? "msg d" : ( ( rn.find( "mi_msg_b" ) != std::string::npos ) ? "msg b" : "" ) );
+                           const bool right_frame = ( fr.cls == RC::MI_RAISE ) || ( fr.cls == RC::MUST && rn.find( "mi_msg_b" ) != std::string::npos );
+                           if( !right_frame || x.message != want ) {
+                              cx.viol( "C05.first", hn, i, "parse_error '" + x.message + "' raised in " + short_name( fr.rule ) + ", expected '" + want + "'" );
+                           }
+                           if( x.byte < fr.byte || x.byte > std::max( fr.furthest, fr.pos ) ) {
+                              cx.viol( "C05.where", hn, i, "must_if error at byte " + std::to_string( int( x.byte ) ) + " outside the failed attempt [" + std::to_string( int( fr.byte ) ) + ", " + std::to_string( int( std::max( fr.furthest, fr.pos ) ) ) + "]" );
+                           }
+                           mi_ok = true;
+                        }
+                        const bool known = mi_ok || ( x.cls == EXC_ABORT ) || ( x.cls == EXC_OVERFLOW && !cx.memory_set ) || ( x.cls == EXC_IO ) || ( x.cls == EXC_BAD_ALLOC ) || ( x.cls == EXC_SYSTEM && int( set ) >= 20 )
                                            || ( fr.cls == RC::W_CHECK_BYTES && x.cls == EXC_PE_LIB && x.message == "maximum allowed rule consumption exceeded" )
                                            || ( fr.cls == RC::INTEGER && x.cls == EXC_PE_LIB && x.message.find( "overflow" ) != std::string::npos );
                         if( !known ) {
